@@ -19,6 +19,8 @@ claimed = {
          "bounds in evidence (arity <=2/3, templates <=4/5 bytes over a 12-byte alphabet, unrolling 6/8); memory/time exhaustion and the 11 library-backed helpers outside; float arithmetic abstracted (over-approximation)"),
  "C09": ("Real KeyBuilder.Compile/BuildKey/optimize and splitTokenizedArguments executed on symbolic text: escaped rendering of any string evaluates to the string; the splitter equals the documented splitting (reference tokenizer in the harness); trees printed with symbolic literals, blank runs and quoting evaluate as the tree dictates; unterminated/empty statements and unknown functions are reported exactly.",
          "bounds in evidence (strings <=4/5 characters over all ASCII bytes + one 2-byte rune, splitter inputs <=6/7 bytes, trees of depth 1/2); invalid UTF-8 and escapes inside statements outside"),
+ "C10": ("Real kf* constructors (compile-time folding through EvalStaticStage, typed pre-parsing through evalTypedStage/mapTypedArgs), KeyBuilder.Compile with and without optimize(), kfTimeParse's live/delta handling and funcfile.LoadDefinitions/keyBuilderToFunction/lazySubContext executed symbolically: constant arguments give what the same values read from the match give; a stage reported constant has that value on every context; optimised == unoptimised; funcs-file functions == their body inline.",
+         "bounds in evidence; library-backed helpers, constant-only parameters, concurrency outside; float arithmetic abstracted as uninterpreted functions"),
 }
 man = {
  "version": 1,
